@@ -1207,26 +1207,15 @@ func renderV(o *Output) string {
 	return b.String()
 }
 
-func main() {
-	def := os.Getenv("VERIF_REPO")
-	if def == "" {
-		def = "/repo"
-	}
-	repo := flag.String("repo", def, "repository root")
-	vOut := flag.String("v", "", "write SmGraphGen.v here")
-	jOut := flag.String("json", "", "write the graph as JSON here")
-	text := flag.Bool("text", false, "print a readable summary to stdout")
-	flag.Parse()
-
-	abs, err := filepath.Abs(*repo)
+// extract parses the repository and returns the state-chain graph.
+func extract(repo string) (*Output, error) {
+	abs, err := filepath.Abs(repo)
 	if err != nil {
-		fmt.Fprintln(os.Stderr, err)
-		os.Exit(2)
+		return nil, err
 	}
 	p, err := load(abs)
 	if err != nil {
-		fmt.Fprintln(os.Stderr, "smgraph: cannot parse the repository:", err)
-		os.Exit(2)
+		return nil, err
 	}
 	out := &Output{Repo: abs, Methods: []Method{}, Edges: []Edge{}, Entries: []Entry{}}
 	for _, m := range p.order {
@@ -1264,6 +1253,25 @@ func main() {
 		}
 		return a.Func < b.Func
 	})
+	return out, nil
+}
+
+func main() {
+	def := os.Getenv("VERIF_REPO")
+	if def == "" {
+		def = "/repo"
+	}
+	repo := flag.String("repo", def, "repository root")
+	vOut := flag.String("v", "", "write SmGraphGen.v here")
+	jOut := flag.String("json", "", "write the graph as JSON here")
+	text := flag.Bool("text", false, "print a readable summary to stdout")
+	flag.Parse()
+
+	out, err := extract(*repo)
+	if err != nil {
+		fmt.Fprintln(os.Stderr, "smgraph: cannot parse the repository:", err)
+		os.Exit(2)
+	}
 
 	if *vOut != "" {
 		if err := os.WriteFile(*vOut, []byte(renderV(out)), 0o644); err != nil {
